@@ -5,6 +5,8 @@ import (
 	"os"
 	"path/filepath"
 	"strings"
+	"sync"
+	"sync/atomic"
 	"time"
 
 	"verif/sim/common"
@@ -100,11 +102,39 @@ func (c *Check) reference() {
 			rev, errR = refCorpus(e, c.CorpusP, filepath.Join(e.Scratch, "ref_rev.tsv"), true)
 		}
 	})
-	if errF != nil {
-		harnessFail("%v", errF)
-	}
-	if errR != nil {
-		harnessFail("%v", errR)
+	if errF != nil || errR != nil {
+		// the reference process died (fatal error / panic outside the caller's
+		// goroutine): isolate the inputs that kill a fresh process, exclude them
+		// (the worker would die on them too) and evaluate again
+		crash := c.isolateCrashers(corpus)
+		if len(crash) == 0 {
+			harnessFail("reference evaluator failed but no single input crashes it: %v %v", errF, errR)
+		}
+		nc := &common.Corpus{}
+		for i := range corpus.In {
+			if crash[i] {
+				c.Ref.ExcludedInputs++
+				if len(c.Ref.Crashers) < 10 {
+					c.Ref.Crashers = append(c.Ref.Crashers, trunc(corpus.In[i], 60))
+				}
+				continue
+			}
+			nc.In = append(nc.In, corpus.In[i])
+			nc.Flags = append(nc.Flags, corpus.Flags[i])
+		}
+		corpus = nc
+		c.Corpus = corpus
+		c.CStats.Total = corpus.Len()
+		must(corpus.Write(c.CorpusP))
+		c.Log("excluded %d input(s) that kill the process outright (not recoverable by the caller): %q", len(crash), c.Ref.Crashers)
+		fwd, errF = refCorpus(e, c.CorpusP, filepath.Join(e.Scratch, "ref_fwd.tsv"), false)
+		rev, errR = refCorpus(e, c.CorpusP, filepath.Join(e.Scratch, "ref_rev.tsv"), true)
+		if errF != nil {
+			harnessFail("%v", errF)
+		}
+		if errR != nil {
+			harnessFail("%v", errR)
+		}
 	}
 	if len(fwd) != corpus.Len() || len(rev) != corpus.Len() {
 		harnessFail("reference pass returned %d/%d results for %d inputs", len(fwd), len(rev), corpus.Len())
@@ -115,7 +145,7 @@ func (c *Check) reference() {
 				c.Ref.OrderDisagree++
 				if len(c.RefViol) < 5 {
 					c.RefViol = append(c.RefViol, &refViolation{What: "result differs between a forward and a reversed sequential pass over the corpus (history dependence)",
-						API: a, Input: common.B64(corpus.In[i]), A: fwd[i][a], B: rev[i][a], Idx: i})
+						API: a, Input: common.B64(corpus.In[i]), A: fwd[i][a], B: rev[i][a], Idx: i, Kind: "order"})
 				}
 			}
 		}
@@ -158,7 +188,7 @@ func (c *Check) reference() {
 				c.Ref.FreshDisagree++
 				if len(c.RefViol) < 5 {
 					c.RefViol = append(c.RefViol, &refViolation{What: "result as the first call of a fresh process differs from the result inside a sequential pass (history dependence)",
-						API: a, Input: common.B64(corpus.In[i]), A: fresh[k][a], B: fwd[i][a], Idx: i})
+						API: a, Input: common.B64(corpus.In[i]), A: fresh[k][a], B: fwd[i][a], Idx: i, Kind: "fresh"})
 				}
 			}
 		}
@@ -217,7 +247,11 @@ func (c *Check) equivalence() {
 		}
 	}
 	if pr.Summary.RaceReports > 0 {
-		harnessFail("the race detector reported during a single-task sequential pass: harness memory is visible to it\n%s", tail(pr.RaceLog, 4000))
+		sigs, _, _ := sigsOf(e, pr)
+		if !sigs["race"] {
+			harnessFail("the race detector reported during a single-task sequential pass and no library frame is involved: harness memory is visible to it\n%s", tail(pr.RaceLog, 4000))
+		}
+		c.Log("data race inside a single call (library-spawned goroutines): %d report(s)", pr.Summary.RaceReports)
 	}
 	if c.EquivBad > 0 {
 		clockOrRand := pr.Summary.SyncOps["clock"] > 0 || pr.Summary.SyncOps["rand"] > 0
@@ -358,4 +392,136 @@ func (c *Check) determinism(sessions int, maxprocs []int, repeats int) {
 			c.Determ.Detail = append(c.Determ.Detail, fmt.Sprintf("session %d: GOMAXPROCS=%d rep=%d hash=%x steps=%d vs GOMAXPROCS=%d hash=%x steps=%d", j.s, j.mp, j.rep, hashes[k], steps[k], jobs[f].mp, hashes[f], steps[f]))
 		}
 	}
+}
+
+// refToSession turns a disagreement between reference evaluations into an
+// explicit one-task history for the simulator: the calls that preceded the
+// input in the forward (or reversed) pass, then the input, with fresh-process
+// expectations. Returned nil if no window reproduces it under the simulator.
+func (c *Check) refToSession(rv *refViolation) (*workerlib.Violation, []workerlib.ExplicitRun) {
+	if rv.Kind == "" || c.Corpus == nil {
+		return nil, nil
+	}
+	in := c.Corpus.In
+	fresh, err := refOne(c.E, rv.API, in[rv.Idx])
+	if err != nil {
+		return nil, nil
+	}
+	// sequence of (api, idx) in pass order up to and including the failing call
+	build := func(forward bool, w int) []workerlib.ECall {
+		var seq []workerlib.ECall
+		if forward {
+			for j := rv.Idx; j >= 0 && len(seq) < w+2; j-- {
+				for a := 1; a >= 0; a-- {
+					if j == rv.Idx && a > rv.API {
+						continue
+					}
+					seq = append(seq, workerlib.ECall{API: uint8(a), Idx: int32(j), In: common.B64(in[j])})
+				}
+			}
+		} else {
+			for j := rv.Idx; j < len(in) && len(seq) < w+2; j++ {
+				for a := 0; a <= 1; a++ {
+					if j == rv.Idx && a < rv.API {
+						continue
+					}
+					seq = append(seq, workerlib.ECall{API: uint8(a), Idx: int32(j), In: common.B64(in[j])})
+				}
+			}
+		}
+		if len(seq) > w+1 {
+			seq = seq[:w+1]
+		}
+		// reverse into execution order
+		for i, j := 0, len(seq)-1; i < j; i, j = i+1, j-1 {
+			seq[i], seq[j] = seq[j], seq[i]
+		}
+		return seq
+	}
+	for _, forward := range []bool{true, false} {
+		var passVal string
+		if forward {
+			passVal = rv.B
+			if rv.Kind == "order" {
+				passVal = rv.A
+			}
+		} else {
+			if rv.Kind != "order" {
+				continue
+			}
+			passVal = rv.B
+		}
+		if passVal == fresh {
+			continue
+		}
+		for _, w := range []int{1, 2, 4, 16, 64, 256, 2048, 1 << 30} {
+			calls := build(forward, w)
+			run := workerlib.ExplicitRun{Tasks: [][]workerlib.ECall{calls}, Policy: simrtPolicyExplicit(), Est: 1 << 30}
+			session := []workerlib.ExplicitRun{run}
+			// only the last call carries an expectation (its fresh-process value);
+			// an empty expectation means "not checked"
+			last := &session[0].Tasks[0][len(calls)-1]
+			last.Exp = common.B64(fresh)
+			pr := runExplicit(c.E, session)
+			for _, v := range pr.Violations {
+				if v.Kind == "mismatch" {
+					v.Run = &session[0]
+					return v, session
+				}
+			}
+		}
+	}
+	return nil, nil
+}
+
+// isolateCrashers finds the inputs on which a fresh reference process dies.
+func (c *Check) isolateCrashers(corpus *common.Corpus) map[int]bool {
+	crash := map[int]bool{}
+	var mu sync.Mutex
+	var rec func(idx []int, depth int)
+	rec = func(idx []int, depth int) {
+		if len(idx) == 0 {
+			return
+		}
+		sub := &common.Corpus{}
+		for _, i := range idx {
+			sub.In = append(sub.In, corpus.In[i])
+			sub.Flags = append(sub.Flags, 0)
+		}
+		id := atomic.AddInt64(&procSeq, 1)
+		p := filepath.Join(c.E.Scratch, "ses", fmt.Sprintf("iso%d.tsv", id))
+		must(sub.Write(p))
+		_, err := refCorpus(c.E, p, p+".out", false)
+		os.Remove(p)
+		os.Remove(p + ".out")
+		if err == nil {
+			return
+		}
+		if len(idx) == 1 {
+			mu.Lock()
+			crash[idx[0]] = true
+			mu.Unlock()
+			return
+		}
+		parts := 8
+		if len(idx) < parts {
+			parts = len(idx)
+		}
+		per := (len(idx) + parts - 1) / parts
+		var chunks [][]int
+		for a := 0; a < len(idx); a += per {
+			b := a + per
+			if b > len(idx) {
+				b = len(idx)
+			}
+			chunks = append(chunks, idx[a:b])
+		}
+		parallel(len(chunks), 8, func(k int) { rec(chunks[k], depth+1) })
+	}
+	all := make([]int, corpus.Len())
+	for i := range all {
+		all[i] = i
+	}
+	rec(all, 0)
+	return crash
 }
